@@ -412,11 +412,8 @@ def sibling_9710(rep, prog, mn, g):
     rep.check(ok, 'C05.wired', file, g, 'mod_97_10 on both sides', gfn.lineno, 'validator and generator do not both delegate to mod_97_10')
     if not ok:
         return
-    va, ga = src(vcalls[0].args[0]), src(gcalls[0].args[0])
-    if isinstance(vcalls[0].args[0], ast.Name):
-        for n in ast.walk(vfn):
-            if isinstance(n, ast.Assign) and src(n.targets[0]) == va:
-                va = src(n.value)
+    from ..match import resolve_locals
+    va, ga = src(resolve_locals(vfn, vcalls[0].args[0])), src(resolve_locals(gfn, gcalls[0].args[0]))
     if mn == 'stdnum.iban':
         good = va == 'number[4:] + number[:4]' and ga == 'number[4:] + number[:2]'
     else:
